@@ -22,7 +22,11 @@ type Msg struct {
 }
 
 // Ctx gives the meaning of '*' in sets.
-type Ctx struct{ MaxSeq, MaxUID uint32 }
+type Ctx struct {
+	MaxSeq, MaxUID uint32
+	// Saved is the saved search result '$' (UID ranges) that imap.SearchRes() stands for
+	Saved [][2]uint32
+}
 
 func setContains(ranges [][2]uint32, q, max uint32) bool {
 	for _, r := range ranges {
@@ -77,6 +81,13 @@ func Match(c *imap.SearchCriteria, m *Msg, ctx Ctx) bool {
 		}
 	}
 	for _, s := range c.UID {
+		if imap.IsSearchRes(s) {
+			// '$': the saved result, not the (empty) set that carries the marker
+			if !setContains(ctx.Saved, m.UID, ctx.MaxUID) {
+				return false
+			}
+			continue
+		}
 		if !setContains(uidRanges(s), m.UID, ctx.MaxUID) {
 			return false
 		}
@@ -157,6 +168,10 @@ func Clone(c *imap.SearchCriteria) *imap.SearchCriteria {
 		o.SeqNum = append(o.SeqNum, append(imap.SeqSet(nil), s...))
 	}
 	for _, s := range c.UID {
+		if imap.IsSearchRes(s) {
+			o.UID = append(o.UID, s) // the marker is recognised by identity
+			continue
+		}
 		o.UID = append(o.UID, append(imap.UIDSet(nil), s...))
 	}
 	o.Header = append(o.Header, c.Header...)
